@@ -133,10 +133,33 @@ def stepCore (P : Params) (X : XXH.Primes) (fx : Fix) (s : DState) (w : List Str
       pure (withView s (opWrap P s.w .wwrap m v) v)
   | ["drop", v] => do
       let v ← v.toNat?
-      pure ({ s with views := s.views.filter (· != v) }, Out.ok)
+      pure ({ s with w := { s.w with filters := fun i => if i = v then none else s.w.filters i }, views := s.views.filter (· != v) }, Out.ok)
   | _ => none
 
+/-- which view / block ids an op line needs to exist (the harness answers `noview` / `noblk` otherwise) -/
+def needs (w : List String) : List String × List String :=
+  match w with
+  | [op, a] => if op ∈ ["bits", "reset", "invert", "drop"] then ([a], []) else ([], [])
+  | [op, a, b] =>
+    if op ∈ ["union", "inter"] then ([a, b], [])
+    else if op == "copy" then ([a], [])
+    else if op ∈ ["wrap", "wwrap"] then ([], [a]) else ([], [])
+  | [op, a, b, _] =>
+    if op ∈ ["upd", "qau", "q", "ser"] then ([a], [])
+    else if op == "deser" then ([], [a]) else ([], [])
+  | [op, _, b, _, _, _] => if op ∈ ["init", "initacc"] then ([], [b]) else ([], [])
+  | _ => ([], [])
+
+def missing (s : DState) (w : List String) : Option String :=
+  let (vs, bs) := needs w
+  if vs.any (fun a => match a.toNat? with | some v => (s.w.filters v).isNone | none => false) then some "noview"
+  else if bs.any (fun a => match a.toNat? with | some m => (s.w.blocks m).isNone | none => false) then some "noblk"
+  else none
+
 def stepLine (P : Params) (X : XXH.Primes) (fx : Fix) (s : DState) (w : List String) : DState × String :=
+  match missing s w with
+  | some o => (s, observe P X s o)
+  | none =>
   match stepCore P X fx s w with
   | some (s', o) => (s', observe P X s' (outStr o))
   | none => (s, "bad-op")
